@@ -794,4 +794,32 @@ theorem pag_mergeWithProto (s : PStore) (hI : Inv s) (cap : Int) (grow : Int →
 
 end pagMerge
 
+/-! ## 5. the bins of the message `ToProto` builds, read back -/
+
+section back
+
+/-- merging a permutation of a canonical content into the empty content gives that content -/
+theorem merge_nil_perm (c : Content) (hc : c.WF) (L : List (Int × Rat)) (hp : L.Perm c) : Content.merge [] L = c := by
+  apply Content.ext _ _ (Content.wf_merge_of_nonneg [] L Content.wf_nil
+    (fun p hp' => Rat.le_of_lt (hc.2 p (hp.mem_iff.1 hp')))) hc
+  intro j
+  rw [Content.lookup_merge, Content.lookup_nil, GenSparse.perm_lookup hp j, Rat.zero_add]
+
+/-- the calls of a sparse-entries message over a key-sorted `int32` content: a permutation of the content -/
+theorem msgCalls_sparseMsg (ord : MapOrder) (hl : ord.Lawful) (c : Content) (hs : c.Sorted)
+    (h32 : ∀ p ∈ c, I32 p.1) : (msgCalls ord (sparseMsg c)).Perm c := by
+  unfold msgCalls sparseMsg
+  simp only [List.zipIdx_nil, List.map_nil, List.append_nil]
+  have hp := GenSparse.mrange_perm ord hl c hs
+  have h1 : (mrange ord c).map (fun p => (wrap32 p.1, p.2)) = mrange ord c := by
+    refine (List.map_congr_left ?_).trans (List.map_id _)
+    intro p hp'
+    rw [wrap32_of_I32 p.1 (h32 p (hp.mem_iff.1 hp'))]; rfl
+  rw [h1]; exact hp
+
+theorem msgCalls_emptyMsg (ord : MapOrder) : msgCalls ord emptyMsg = [] := by
+  simp [msgCalls, emptyMsg, mrange]
+
+end back
+
 end DDS.GenProtoStore
